@@ -8,14 +8,18 @@ class P(Process):
     defaults={'timestep':1.0}
     def __init__(self, parameters=None):
         super().__init__(parameters)
-        self.cached={'A': {'sub': {'x': 1}}, 'B': {'sub': {'x': 1}}}
+        self.cached={'A': {'sub': {'x': 1}, 'deep': {'er': {'z': 1}}}, 'B': {'sub': {'x': 1}, 'deep': {'er': {'z': 2}}}}
     def ports_schema(self):
-        return {'A': {'sub': {'x': {'_default': 0}}}, 'B': {'sub': {'x': {'_default': 0}}}}
+        port = {'sub': {'x': {'_default': 0}}, 'deep': {'er': {'z': {'_default': 0}}}}
+        import copy as _c
+        return {'A': _c.deepcopy(port), 'B': _c.deepcopy(port)}
     def next_update(self, t, states): return self.cached
 p=P()
 before=copy.deepcopy(p.cached)
 e=Engine(processes={'p':p}, topology={'p': {'A': ('s',), 'B': ('s',)}}, display_info=False, emitter='null')
 for _ in range(3): e.update(1)
 x=e.state.get_value()['s']['sub']['x']
+z=e.state.get_value()['s']['deep']['er']['z']
 print('x', x, 'cached update now', p.cached)
-sys.exit(0 if x==6 and p.cached==before else 1)
+print('z', z)
+sys.exit(0 if x==6 and z==9 and p.cached==before else 1)
